@@ -146,6 +146,19 @@ def codegen_only(src, strict=False, imports=None):
     )
 
 
+def lexer_rejects(src):
+    from mako import exceptions
+    from mako.lexer import Lexer
+
+    try:
+        Lexer(src).parse()
+    except exceptions.MakoException:
+        return True
+    except BaseException:  # noqa
+        return False
+    return False
+
+
 def exc_class(e):
     return type(e).__name__
 
@@ -279,6 +292,8 @@ def a_run(E, ref, positions, st_counts):
         # an exception of E's own evaluation stops the template at the first position that evaluates it
         same_exc = cls.startswith("raises:") and all(n[0] == "exc" for n in native.values()) and cls[7:] in natexc
         if not same_exc:
+            if cls.startswith("rejected:") and lexer_rejects(src):
+                return {"-": ("dontcare", "the lexer cannot delimit this text here")}
             for p in positions:
                 fails[p] = (cls, "%s: %s" % (exc_class(val), str(val)[:160]))
             return fails
@@ -351,11 +366,15 @@ def a_check(E, ref):
         fails = {}
         for p in positions:
             fails.update(a_run(E, ref, [p], cnt))
+    dc = fails.pop("-", None)
+    if dc:
+        S["dontcare_a"] = S.get("dontcare_a", 0) + 1
     S["memo_a"][E] = fails
     return fails
 
 
 VARIANT_NAME = {"Fk": "keyword", "Fs": "star", "Fd": "double-star", "Fm": "mixed-with-double-star"}
+VARIANT_FEATURE = {"Fk": "Call.keyword", "Fs": "Call.star", "Fd": "Call.dstar", "Fm": "Call.dstar"}
 
 
 def path_kinds(path):
@@ -372,35 +391,36 @@ def build_path(path):
     return node
 
 
-def a_feature(path, fails):
-    """the smallest sub-structure of the tree that already fails on its own"""
+def a_component(path, fails):
+    """the smallest sub-structure of the tree that already fails on its own -> (feature, its own failures, its text)"""
     n = len(path)
-    # suffix subtrees from the deepest kind outwards
     j = n - 1
-    while j >= 0:
+    while j >= 0:  # suffix subtrees from the deepest kind outwards
         sub = path[j:]
         if len(sub) == n:
-            subfails = fails
+            subfails, text = fails, None
         else:
             s = X.source(build_path(sub))
-            subfails = a_check(s[0], s[1]) if s else {}
+            subfails, text = (a_check(s[0], s[1]), s[0]) if s else ({}, None)
         if subfails:
             if len(sub) == 1:
-                return X.BY_LABEL[sub[0]][1]
+                return X.BY_LABEL[sub[0]][1], subfails, text
             # sub = k_j(slot: passing subtree): is k_j itself broken?
             s0 = X.source(X.build(sub[0]))
-            if s0 and a_check(s0[0], s0[1]):
-                return X.BY_LABEL[sub[0]][1]
-            return "nested:" + X.BY_LABEL[sub[2]][2]
+            f0 = a_check(s0[0], s0[1]) if s0 else {}
+            if f0:
+                return X.BY_LABEL[sub[0]][1], f0, s0[0]
+            return "nested:" + X.BY_LABEL[sub[2]][2], subfails, text
         j -= 2
-    return "?"
+    return "?", fails, None
 
 
 def a_sig(path, fails, tested):
-    feat = a_feature(tuple(path), fails)
-    order = [p for p in tested if p in fails]
-    sym = fails[order[0]][0]
-    suffix = "" if len(order) == len(tested) else "@" + "".join(order)
+    feat, cf, text = a_component(tuple(path), fails)
+    ctested = a_positions(text) if text else tested
+    order = [p for p in ctested if p in cf] or sorted(cf)
+    sym = cf[order[0]][0]
+    suffix = "" if len(order) == len(ctested) else "@" + "".join(order)
     return "reemit:%s:%s%s" % (feat, sym, suffix)
 
 
@@ -450,7 +470,7 @@ def a_case(path, node, st, seed, dedupe, shard=None):
             if not vf:
                 st.outcomes[("a", "holds", "filter-call-" + VARIANT_NAME[v])] += 1
                 continue
-            sig = "reemit:filter-call-argument.%s:%s" % (VARIANT_NAME[v], vf[v][0])
+            sig = "reemit:%s:%s" % (VARIANT_FEATURE[v], vf[v][0])
             st.outcomes[("a", sig)] += 1
             st.violation(
                 sig, {"part": "a", "E": E, "path": list(path), "seed": seed, "variant": v},
